@@ -293,6 +293,10 @@ def tree_jobs(conf, dev, tmp, emit_path, tier):
               "RootKinds": conf["root"], "Kinds": conf["kinds"], "AllowBack": "TRUE" if conf["back"] else "FALSE",
               "PageNoSets": conf["pn"], "MaxPagesSet": conf["mp"]}
     jobs = []
+    # a deviation can only fire where the configuration reaches it (catalog entries; a selection): elsewhere the
+    # as-coded and the intended machine are the same machine and one run serves
+    reach = [d for d in tdev if (d == "CatalogInherits" and conf["cat"]) or (d == "ContinueSkipsMax" and conf["pn"] != "<- PN_None")]
+    tdev = reach
     for which, dv in (("intended", []), ("as-coded", tdev)):
         if which == "as-coded" and not tdev:
             break
@@ -728,27 +732,45 @@ def record_all(ck):
     return traces, unsupported
 
 
-def validate_tree_traces(ck, traces, dev, tmp, label="recorded page-tree traces"):
-    """-> number of rejected traces (each reported)"""
-    tdev = [d for d in dev if d in TREE_DEVS]
-    cfg = write_cfg(os.path.join(tmp, "c04_ttrace.cfg"), constants={"Dev": tla_set(tdev) if tdev else "{}"}, spec="Spec",
+def _tree_trace_run(traces, dv, tmp, tag):
+    cfg = write_cfg(os.path.join(tmp, "c04_ttrace_%s.cfg" % tag), constants={"Dev": tla_set(dv) if dv else "{}"}, spec="Spec",
                     invariants=["StackSane", "MatchedInOrder"], deadlock=True)
-    tf = os.path.join(tmp, "c04_ttrace.json")
+    tf = os.path.join(tmp, "c04_ttrace_%s.json" % tag)
+    with open(tf, "w") as f:
+        json.dump(traces, f)
+    res = run_tlc(TREE_TRACE, cfg, workers=1, env={"TRACE_FILE": tf, "JAVA_TOOL_OPTIONS": "-Xss64m"}, timeout=3600, heap="6g")
+    if not res.ok and (res.violated != "deadlock" or not res.error_trace):
+        raise MachineryError("page-tree trace validation failed unexpectedly: " + res.error_text[:2000])
+    return res
+
+
+def validate_tree_traces(ck, traces, dev, tmp, label="recorded page-tree traces"):
+    """-> number of rejected traces (each reported).  A trace is a behaviour of the specification with the known
+    deviations in force (as coded); one that is not is still accepted when it is a behaviour of the intended
+    specification (a known deviation that has been repaired is not an alarm)."""
+    tdev = [d for d in dev if d in TREE_DEVS]
     todo = [{k: t[k] for k in ("name", "tree", "cat", "pages", "sels")} for t in traces]
     rejected = 0
+    intended_only = 0
     while todo:
-        with open(tf, "w") as f:
-            json.dump(todo, f)
-        res = run_tlc(TREE_TRACE, cfg, workers=1, env={"TRACE_FILE": tf}, timeout=3600, heap="6g")
+        res = _tree_trace_run(todo, tdev, tmp, "coded")
         if ck is not None:
             ck.add_tlc(res, "%s (%d)" % (label, len(todo)))
         if res.ok:
             break
-        if res.violated != "deadlock" or not res.error_trace:
-            raise MachineryError("page-tree trace validation failed unexpectedly: " + res.error_text[:2000])
         st = res.error_trace[-1][1]
         t, k = int(st["t"]), int(st["k"])
         tr = todo[t - 1]
+        todo = todo[t:]
+        if tdev:
+            res2 = _tree_trace_run([tr], [], tmp, "intended")
+            if ck is not None:
+                ck.add_tlc(res2, "trace %s against the intended model" % tr["name"])
+            if res2.ok:
+                intended_only += 1
+                continue
+            st = res2.error_trace[-1][1]
+            k = int(st["k"])
         rejected += 1
         what = ("recorded walk of %s is not a behaviour of the page-tree specification: after %d of %d pages the machine is at "
                 "pc=%s call=%s, next recorded page %s" % (tr["name"], k, len(tr["pages"]), st.get("pc"), st.get("call"),
@@ -757,40 +779,58 @@ def validate_tree_traces(ck, traces, dev, tmp, label="recorded page-tree traces"
             ck.violation("trace-rejected:tree", what, {"kind": "trace", "name": tr["name"], "matched": k, "trace": tr if len(json.dumps(tr)) < 200000 else None})
         else:
             print("REJECTED: " + what)
-        todo = todo[t:]
+        if rejected >= 5:
+            rejected += len(todo)
+            break
+    if intended_only and ck is not None:
+        ck.note("%d recorded traces follow the intended model where a known deviation is listed (repaired in this tree?)" % intended_only)
+        ck.extra["traces_following_intended_model_only"] = intended_only
     return rejected
 
 
-def validate_geom_events(ck, events, dev, tmp, label="recorded process_page events"):
-    gdev = [d for d in dev if d in GEOM_DEVS]
-    cfg = write_cfg(os.path.join(tmp, "c04_gtrace.cfg"), constants={"Dev": tla_set(gdev) if gdev else "{}"}, spec="Spec",
+def _geom_trace_run(events, dv, tmp, tag):
+    cfg = write_cfg(os.path.join(tmp, "c04_gtrace_%s.cfg" % tag), constants={"Dev": tla_set(dv) if dv else "{}"}, spec="Spec",
                     invariants=["InRange"], deadlock=True)
-    tf = os.path.join(tmp, "c04_gtrace.json")
+    tf = os.path.join(tmp, "c04_gtrace_%s.json" % tag)
+    with open(tf, "w") as f:
+        json.dump([{k: e[k] for k in ("boxw", "mediabox", "rraw", "rotate", "ctm", "bbox")} for e in events], f)
+    res = run_tlc(GEOM_TRACE, cfg, workers=1, env={"TRACE_FILE": tf}, timeout=3600)
+    if not res.ok and (res.violated != "deadlock" or not res.error_trace):
+        raise MachineryError("page-geometry trace validation failed unexpectedly: " + res.error_text[:2000])
+    return res
+
+
+def validate_geom_events(ck, events, dev, tmp, label="recorded process_page events"):
+    """-> number of rejected events (as validate_tree_traces: as-coded model first, then the intended one)"""
+    gdev = [d for d in dev if d in GEOM_DEVS]
     todo = list(events)
     rejected = 0
+    intended_only = 0
     while todo:
-        with open(tf, "w") as f:
-            json.dump([{k: e[k] for k in ("boxw", "mediabox", "rraw", "rotate", "ctm", "bbox")} for e in todo], f)
-        res = run_tlc(GEOM_TRACE, cfg, workers=1, env={"TRACE_FILE": tf}, timeout=3600)
+        res = _geom_trace_run(todo, gdev, tmp, "coded")
         if ck is not None:
             ck.add_tlc(res, "%s (%d)" % (label, len(todo)))
         if res.ok:
             break
-        if res.violated != "deadlock" or not res.error_trace:
-            raise MachineryError("page-geometry trace validation failed unexpectedly: " + res.error_text[:2000])
         i = int(res.error_trace[-1][1]["i"])
         e = todo[i - 1]
+        todo = todo[i:]
+        if gdev and _geom_trace_run([e], [], tmp, "intended").ok:
+            intended_only += 1
+            if intended_only < 200:
+                continue
         rejected += 1
-        what = "recorded process_page event of %s is not a behaviour of the page-geometry specification: %s" % (e.get("name"), {k: e[k] for k in ("boxw", "mediabox", "rraw", "rotate", "ctm", "bbox")})
+        what = "recorded process_page event of %s is not a behaviour of the page-geometry specification: %s" % (
+            e.get("name"), {k: e[k] for k in ("boxw", "mediabox", "rraw", "rotate", "ctm", "bbox")})
         if ck is not None:
-            # an unnormalised MediaBox in a real document, processed as written, is the named deviation at work
-            nb = [min(e["boxw"][0], e["boxw"][2]), min(e["boxw"][1], e["boxw"][3]), max(e["boxw"][0], e["boxw"][2]), max(e["boxw"][1], e["boxw"][3])]
             ck.violation("trace-rejected:geom", what, {"kind": "geom-event", "event": e})
         else:
             print("REJECTED: " + what)
-        todo = todo[i:]
         if rejected >= 5:
+            rejected += len(todo)
             break
+    if intended_only and ck is not None:
+        ck.note("%d recorded process_page events follow the intended model where a known deviation is listed" % intended_only)
     return rejected
 
 
